@@ -570,14 +570,16 @@ func (sp *ServerPool) doHandle(stdctx stdcontext.Context, spCtx *serverPoolConte
 }
 
 func (sp *ServerPool) buildResponse(spCtx *serverPoolContext) (err error) {
-	body := readers.NewCallbackReader(spCtx.stdResp.Body)
-	spCtx.stdResp.Body = body
-
 	if sp.proxy.compression != nil {
 		if sp.proxy.compression.compress(spCtx.stdReq, spCtx.stdResp) {
 			spCtx.AddTag("gzip")
 		}
 	}
+
+	// the callback reader must be the outermost one: collectMetrics
+	// relies on stdResp.Body being a CallbackReader.
+	body := readers.NewCallbackReader(spCtx.stdResp.Body)
+	spCtx.stdResp.Body = body
 
 	resp, err := httpprot.NewResponse(spCtx.stdResp)
 	if err != nil {
